@@ -2,7 +2,7 @@
     Model: MM15/Codec.v (converter.py [_import_proof] and what it calls; parser.py proof field).
     Only statements here; the proofs are in MM15/CodecProofs.v. *)
 From Coq Require Import NArith List Permutation Lia.
-From Pi2 Require Import MM15.Codec MM15.CodecProofs MM15.Witness.
+From Pi2 Require Import MM15.Codec MM15.CodecProofs MM15.Witness MM15.Replay MM15.ReplayProofs.
 Import ListNotations.
 Open Scope N_scope.
 
@@ -80,6 +80,50 @@ Theorem C15_numbers_partition : forall (mand ls : list str) (n : N), 1 <= n ->
   end.
 Proof. exact numbers_partition. Qed.
 Print Assumptions C15_numbers_partition.
+
+(** Resolution of marked steps during replay (translate.py exec_proof; label steps abstracted to the term they
+    leave on top): a reference numbered m + k + j + 1 loads the term marked by the (j+1)-th Z — duplicates
+    counted, so marking equal expressions twice or putting Z after a back-reference does not shift numbers. *)
+Theorem C15_marked_reference_denotes : forall (A : Type) (eqb : A -> A -> bool) m k steps tr i j p,
+  replay_marks eqb false m k steps None [] = Some tr ->
+  nth_error tr i = Some (ERef j p) -> nth_error (saved (firstn i tr)) j = Some p.
+Proof. exact @marked_reference_denotes. Qed.
+Print Assumptions C15_marked_reference_denotes.
+(** Z marks the preceding step. *)
+Theorem C15_z_marks_preceding_step : forall (A : Type) (eqb : A -> A -> bool) m k steps tr i p,
+  replay_marks eqb false m k steps None [] = Some tr ->
+  nth_error tr i = Some (EZ p) -> exists i', i = S i' /\ option_map term_of (nth_error tr i') = Some p.
+Proof. exact @z_marks_preceding_step. Qed.
+Print Assumptions C15_z_marks_preceding_step.
+Theorem C15_replay_dispatch : forall (A : Type) (eqb : A -> A -> bool) m k steps tr i n t,
+  replay_marks eqb false m k steps None [] = Some tr -> nth_error steps i = Some (n, t) ->
+  match classify m k n, nth_error tr i with
+  | RMark, Some (EZ _) => True
+  | RSaved j, Some (ERef j' _) => j = j'
+  | (RHyp _ | RLabel _), Some (ELabel t') => t = t'
+  | _, _ => False
+  end.
+Proof. exact @replay_dispatch. Qed.
+Print Assumptions C15_replay_dispatch.
+(** non-vacuity: equal terms marked twice (10, 10), then 20; number 4 = second mark, number 5 = third mark *)
+Example C15_marked_reference_nonvacuous :
+  replay_marks_N false 1 1 [(1, 10); (0, 0); (1, 10); (0, 0); (2, 20); (0, 0); (4, 0); (0, 0); (5, 0)]%N None []
+  = Some [ELabel 10; EZ 10; ELabel 10; EZ 10; ELabel 20; EZ 20; ERef 1 10; EZ 10; ERef 2 20]%N.
+Proof. reflexivity. Qed.
+(** A replay that skips a Z whose term is already marked (guard [dedup = true]) shifts every later number:
+    number 4 then loads the THIRD mark's term and number 5 is out of range. *)
+Theorem C15_refuted_dedup_marks :
+  exists steps tr i j p, replay_marks_N true 1 1 steps None [] = Some tr /\
+    nth_error tr i = Some (ERef j p) /\ nth_error (saved (firstn i tr)) j <> Some p.
+Proof.
+  exists [(1, 10); (0, 0); (1, 10); (0, 0); (2, 20); (0, 0); (4, 0)]%N.
+  eexists. exists 6%nat, 1%nat, 20%N. split; [vm_compute; reflexivity|]. split; [reflexivity|].
+  vm_compute. intros H. discriminate H.
+Qed.
+Print Assumptions C15_refuted_dedup_marks.
+Example C15_refuted_dedup_marks_out_of_range :
+  replay_marks_N true 1 1 [(1, 10); (0, 0); (1, 10); (0, 0); (2, 20); (0, 0); (5, 0)]%N None [] = None.
+Proof. reflexivity. Qed.
 
 (** Any whitespace layout gives the same tokens. *)
 Theorem C15_tokenize_layout : forall pre items, all_lex_space pre ->
